@@ -6,8 +6,9 @@ import Iota.Driver.C19
 import Iota.Driver.Curl
 import Iota.Driver.Bip39
 import Iota.Driver.Pow
+import Iota.Driver.Secp
 
 namespace Iota.Driver
 def allOps : List (String × Handler) :=
-  C14.ops ++ C10.ops ++ C15.ops ++ Bech32.ops ++ C19.ops ++ Curl.ops ++ Bip39.ops ++ Pow.ops
+  C14.ops ++ C10.ops ++ C15.ops ++ Bech32.ops ++ C19.ops ++ Curl.ops ++ Bip39.ops ++ Pow.ops ++ Secp.ops
 end Iota.Driver
